@@ -36,7 +36,8 @@ pub struct Case {
 }
 
 fn aux_len() -> BoxedStrategy<u16> {
-  prop_oneof![2 => 1u16..8, 3 => 8u16..150, 2 => 150u16..200, 3 => 200u16..520, 1 => 520u16..901].boxed()
+  // mostly up to a few cipher blocks; now and then several KiB (page- / segment-sized structure)
+  prop_oneof![20 => 1u16..8, 30 => 8u16..150, 20 => 150u16..200, 30 => 200u16..520, 10 => 520u16..901, 2 => 901u16..4000, 3 => 4000u16..4200, 2 => 4200u16..12000].boxed()
 }
 
 fn strat(_t: Tier) -> BoxedStrategy<Case> {
